@@ -155,6 +155,38 @@ pub fn perm_from_index(n: usize, mut idx: u64) -> Vec<usize> {
 /// an operation with its operands resolved to pool indices
 /// operand positions of a list operation: short lists use the three operands, long ones repeat the first
 /// two and end with the third (so that every element, the last one in particular, can matter)
+/// The partial model with contents `a`: built in one go, or (`lived`) as a long-lived model that reached the
+/// same contents through earlier decisions -- variables first set the other way, set and withdrawn, set twice
+/// (`salt` picks which). Both denote the same assignment.
+pub fn model_with_history(a: &[Option<bool>], lived: bool, salt: u32) -> PartialModel {
+    if !lived {
+        return PartialModel::from_assignments(a);
+    }
+    let mut m = PartialModel::new(a.len());
+    for (v, x) in a.iter().enumerate() {
+        let l = VarLabel::new(v as u64);
+        match (x, (salt >> (v % 16)) & 3) {
+            (Some(b), 0) => {
+                m.set(l, !*b);
+            }
+            (Some(b), 1) => {
+                m.set(l, *b);
+            }
+            (None, 2) => m.set(l, salt & 1 == 0),
+            (None, 3) => m.set(l, salt & 1 == 1),
+            _ => {}
+        }
+    }
+    for (v, x) in a.iter().enumerate().rev() {
+        let l = VarLabel::new(v as u64);
+        match x {
+            Some(b) => m.set(l, *b),
+            None => m.unset(l),
+        }
+    }
+    m
+}
+
 pub fn list_items(x: &[usize; 3], len: usize) -> Vec<usize> {
     match len {
         0 => vec![],
@@ -230,7 +262,7 @@ fn apply<T: IteTable<'static, Ptr> + Default + 'static>(
                     }
                 })
                 .collect();
-            b.condition_model(g(0), &PartialModel::from_assignments(&a))
+            b.condition_model(g(0), &model_with_history(&a, r.flag, r.bits.0 ^ r.bits.1.rotate_left(3)))
         }
         K_EXISTS => b.exists(g(0), l),
         K_COMPOSE => b.compose(g(0), l, g(1)),
@@ -658,7 +690,7 @@ impl World for BddWorld {
                 K_NEWVAR | K_NEWLABEL | K_CONST => [0, 0, 0, o.below(2) as i64],
                 K_COND | K_EXISTS => [gen_operand(&mut o), o.below(8) as i64, 0, o.below(2) as i64],
                 K_COMPOSE => [gen_operand(&mut o), gen_operand(&mut o), o.below(8) as i64, 0],
-                K_CONDMODEL => [gen_operand(&mut o), o.below(128) as i64, o.below(128) as i64, 0],
+                K_CONDMODEL => [gen_operand(&mut o), o.below(128) as i64, o.below(128) as i64, o.below(2) as i64],
                 K_REISSUE => [o.below(1 << 16) as i64, 0, 0, 0],
                 K_AUDIT => [gen_operand(&mut au), 0, 0, 0],
                 K_ANDLST | K_ORLST => [gen_operand(&mut o), gen_operand(&mut o), gen_operand(&mut o), (o.below(14) << 1) as i64],
